@@ -16,6 +16,7 @@ import Spade.Proofs.AbsLemmas
 import Spade.Spec
 import Spade.Examples
 import Spade.Proofs.FlagInv
+import Spade.Proofs.ConstrainInv
 namespace Spade
 open AState
 
@@ -109,5 +110,35 @@ theorem C04_model_insert_off_edge_flags (s t : St) (p : Pt) (d hint v : Nat)
     (hl : ∀ e, s.locateM p hint ≠ some (.onEdge e))
     (h : s.insertM p d hint = some (t, v)) : t.flag = s.flag :=
   St.insertM_off_edge_flags s t p d hint v hV0 hV1 hF hl h
+
+/-! ### on the constraint-insertion model (compared index for index, flags included, clause
+`C04:model`) -/
+
+/-- "adding a constraint never removes another one": every flag set before `try_add_constraint`
+is set afterwards — through the flips of every conflict region, the temporary border flags and
+their removal, and the final marking of the chain; for every state and every pair of vertices -/
+theorem C04_model_add_keeps_flags (s : St) (a b : Nat) (s' : St) (chain : List Nat)
+    (h : s.tryAddConstraintM a b = some (s', chain)) (x : Nat) (hx : s.isFlag x = true) :
+    s'.isFlag x = true :=
+  St.tryAdd_keeps_flags s a b s' chain h x hx
+
+/-- the edges `try_add_constraint` returns are constraint edges in the state it returns -/
+theorem C04_model_add_marks_chain (s : St) (a b : Nat) (s' : St) (chain : List Nat)
+    (h : s.tryAddConstraintM a b = some (s', chain)) (x : Nat) (hx : x ∈ chain) :
+    s'.isFlag x = true :=
+  St.tryAdd_marks_chain s a b s' chain h x hx
+
+/-- a conflict region is resolved without losing a flag -/
+theorem C04_model_region_keeps_flags (s : St) (edges : List Nat) (target : Nat) (s' : St) (r : Option Nat)
+    (h : s.resolveConflictRegion edges target = some (s', r)) (x : Nat) (hx : s.isFlag x = true) :
+    s'.isFlag x = true :=
+  St.resolveConflictRegion_keeps_flags s edges target s' r h x hx
+
+/-- non-vacuity: 1–3 is added across the diagonal of the square (one flip); its flag is set and the
+flag of the previously added hull edge 0–1 survives -/
+example : ((emptyM.insertAllM [(⟨0,0⟩,0,0), (⟨4,0⟩,1,0), (⟨4,4⟩,2,0), (⟨0,4⟩,3,1)]).bind fun s =>
+    (s.tryAddConstraintM 0 1).bind fun r => (r.1.tryAddConstraintM 1 3).map fun t =>
+      (r.2, t.2, t.1.isFlag 0, t.1.isFlag 4, t.1.isFlag 2)) = some ([0], [4], true, true, false) := by
+  decide +kernel
 
 end Spade
